@@ -660,7 +660,9 @@ class AnsiString:
         else:
             raise TypeError('Invalid type for __getitem__')
 
-        new_s = AnsiString(self._s[val])
+        # The characters are taken as they are (the base string must not be parsed for ANSI directives again)
+        new_s = AnsiString()
+        new_s._s = self._s[val]
 
         if not new_s._s:
             # Special case - string is now empty
